@@ -163,6 +163,27 @@ def suite_containers(ctx: Ctx, eng: morph.Engine, n_specs: int, depth: int):
                         "real": {f"{m}/{s}": o["r"] for (m, s), o in rec.real.items()}})
 
 
+def suite_user_leaves(ctx: Ctx, eng: morph.Engine, n_specs: int, depth: int):
+    """`escape_only_from_leaves` on the real code: with user leaves in the recipe (functions that raise ValueError / KeyError /
+    TypeError on some data) a non-LoadError exception may come out of a load - but only when one of those functions really
+    raises it on some sub-datum; the builtin containers around them add no other source, and a LoadError of a user leaf
+    stays a LoadError."""
+    specs = [sp for sp in eng.gen_specs(n_specs, depth, user_leaves=True) if any(n in morph.USER_LEAVES for n in morph.spec_scalars_deep(sp))]
+    recs = eng.load_records(specs, suite="load-user-leaves", n_valid=1, n_corrupt=4, n_hostile=2)
+    for rec in recs:
+        rows = morph.leaf_rows(rec.spec, rec.datum)
+        leaf_escapes = sorted({r["out"][1] for r in rows if r["out"][0] == "escape"})
+        for cfg, out in rec.real.items():
+            case = {"kind": "user-leaf", "hint": repr(rec.spec.hint)[:200], "ty": rec.spec.ty, "datum": morph.enc(rec.datum),
+                    "mode": cfg[0], "strict": cfg[1], "origin": rec.origin, "datum_is_class": isinstance(rec.datum, type)}
+            ctx.note_case({"t": rec.spec.ty, "d": case["datum"], "c": cfg}, nontrivial=out["r"] != "ok",
+                          kind=f"user-leaf-{rec.origin}:{out['r']}" + (":leaf-escapes" if leaf_escapes else ""))
+            if out["r"] == "escape" and leaf_escapes:
+                continue        # the user's own function raised: the documented source of unexpected errors
+            oracle_outcome(ctx, out, case, f"load of {rec.origin} datum for {repr(rec.spec.hint)[:80]} [{cfg[0]}, strict={cfg[1]}] "
+                           f"(no user leaf raises an unexpected error on any sub-datum)")
+
+
 def set_of_any(ctx: Ctx, eng: morph.Engine):
     """a type Python CAN hold values of, fed unhashable elements"""
     from typing import Any
@@ -180,6 +201,7 @@ def run(ctx: Ctx):
     eng = morph.Engine(ctx)
     suite_scalars(ctx, eng)
     suite_containers(ctx, eng, n_specs=ctx.budget(120, 1500), depth=3 if ctx.tier == "quick" else 4)
+    suite_user_leaves(ctx, eng, n_specs=ctx.budget(150, 1500), depth=3)
     set_of_any(ctx, eng)
     class_object_datum(ctx, eng)
 
